@@ -119,7 +119,7 @@ typedef struct {
 	char dir[4096], tmpd[4096];
 	char tables[6][300]; int ntables; model_t tmodel[6];
 	char setfile[300]; int setver;
-	char junk[300], shortf[300];
+	char junk[300], shortf[300], badoff[300], badlen[300];   /* badoff/badlen: a valid table whose index offset / index length prefix was made too large */
 	model_t universe;
 	uint64_t created[T_NTYPES];
 	int wn;
@@ -153,6 +153,7 @@ static void write_setfile(hist_t *h, rng_t *r)
 	for (int i = 0; i < h->ntables; i++) if (rndp(r, 650)) { const char *b = strrchr(h->tables[i], '/'); if (rndp(r, 500)) fprintf(f, "%s\n", b + 1); else fprintf(f, "%s\n", h->tables[i]); }
 	if (rndp(r, 200)) fprintf(f, "does-not-exist.mtbl\n");
 	if (rndp(r, 200)) { const char *b = strrchr(h->junk, '/'); fprintf(f, "%s\n", b + 1); }
+	if (rndp(r, 200)) { const char *b = strrchr(rndp(r, 500) ? h->badlen : h->badoff, '/'); fprintf(f, "%s\n", b + 1); STAT("setfile.names_table_with_forged_index_extent"); }
 	if (rndp(r, 200)) fprintf(f, "\n");          /* blank line: resolves to the directory itself */
 	fclose(f);
 	h->setver++;
@@ -234,6 +235,7 @@ static void step(hist_t *h, rng_t *r, int thorough)
 	} else if (op < 32) {                                       /* reader: valid table, non-table, short file */
 		int which = rndn(r, 12);
 		const char *path = which < 7 ? h->tables[rndn(r, h->ntables)] : which < 9 ? h->junk : which < 10 ? h->shortf : h->dir /* a directory: open() works, mmap() fails */;
+		if (which == 7 || which == 6) { path = which == 7 ? h->badlen : h->badoff; which = 8; STAT("ops.reader.forged_index_extent"); }   /* refused after the mapping exists */
 		if (which == 11) { path = h->tables[rndn(r, h->ntables)]; g_fail_mmap = 1; }   /* a valid table whose mmap() fails (address-space limit) */
 		struct mtbl_reader_options *ro = mtbl_reader_options_init();
 		mtbl_reader_options_set_verify_checksums(ro, rndn(r, 2)); mtbl_reader_options_set_madvise_random(ro, rndn(r, 2));
@@ -370,6 +372,15 @@ static void run_history(const args_t *a, long c, uint64_t seed_salt, hist_t *h, 
 	}
 	snprintf(h->junk, sizeof h->junk, "%s/junk.bin", h->dir); { uint8_t b[2000]; for (size_t i = 0; i < sizeof b; i++) b[i] = (uint8_t)rnd64(r); write_file(h->junk, b, sizeof b); }
 	snprintf(h->shortf, sizeof h->shortf, "%s/short.bin", h->dir); write_file(h->shortf, "short", 5);
+	snprintf(h->badoff, sizeof h->badoff, "%s/badoff.mtbl", h->dir); snprintf(h->badlen, sizeof h->badlen, "%s/badlen.mtbl", h->dir);
+	{ size_t len; uint8_t *b = read_file(h->tables[0], &len);
+	  if (b && len >= 512 + 16) {
+		uint64_t ioff; memcpy(&ioff, b + len - 512, 8);
+		uint64_t big = (uint64_t)len; memcpy(b + len - 512, &big, 8); write_file(h->badoff, b, len); memcpy(b + len - 512, &ioff, 8);
+		if (ioff + 5 <= len - 512) { static const uint8_t v[5] = {0xff, 0xff, 0xff, 0xff, 0x0f}; memcpy(b + ioff, v, 5); }
+		write_file(h->badlen, b, len);
+	  }
+	  free(b); }
 	snprintf(h->setfile, sizeof h->setfile, "%s/set.fileset", h->dir); write_setfile(h, r);
 	int steps = 20 + rndn(r, a->thorough ? 140 : 90);
 	for (int i = 0; i < steps; i++) step(h, r, a->thorough);
@@ -385,7 +396,7 @@ static void run_history(const args_t *a, long c, uint64_t seed_salt, hist_t *h, 
 	/* remove what the history itself wrote; anything else left behind is a finding */
 	for (int t = 0; t < h->ntables; t++) { unlink(h->tables[t]); model_free(&h->tmodel[t]); }
 	for (int i = 0; i < 40; i++) { char p[4200]; snprintf(p, sizeof p, "%s/w%d.mtbl", h->dir, i); unlink(p); }
-	unlink(h->junk); unlink(h->shortf); unlink(h->setfile);
+	unlink(h->junk); unlink(h->shortf); unlink(h->setfile); unlink(h->badoff); unlink(h->badlen);
 	model_free(&h->universe);
 	char lst[1024];
 	size_t left = list_dir(h->tmpd, lst, sizeof lst);
